@@ -16,3 +16,7 @@ CHECKS["C01"] = ("exploration", "exhaustive enumeration of mnemonic x operand-fo
    "Every one of the 252 mnemonics with the complete operand-form product of its class (quick: 12x12 syntactic forms x 8 register pairings x 2 values for double-operand instructions, everything else complete; thorough: full 108x108 form product at three link bases) is assembled and the emitted words are decoded by an independent decoder: same operation, modes, registers, operand order, operand values, exact length. A finite product covered completely is the strongest statement available for a 252-row table.",
    "Trusted: pdpmc/ref/isa.py (table written from the handbooks, DESIGN.md Appendix A; handbook vectors in selftest). Statements are batched ~400 per program; any deviation re-runs each statement alone.",
    "DESIGN.md 5/C01")
+CHECKS["C04"] = ("exploration", "exhaustive enumeration of distances x spellings x placements on the real assembler, against reference encodings and an independent decoder",
+   "Complete product: every branch mnemonic x every byte distance -300..+300 x 8 target spellings, sob x 8 registers x every distance -140..+6 x the same spellings (accept iff even and within reach, then exact field; otherwise the run must fail with an error), and PC-relative operands in 7 placements x 13 targets x 4 link bases (incl. wrap-around) whose effective address is recomputed by the independent decoder. Both limits are bracketed by complete enumeration, which is what the property's boundary claims need.",
+   "Trusted: pdpmc/ref/isa.py opcodes/decoder. Which of the two error kinds is reported is not demanded.",
+   "DESIGN.md 5/C04")
